@@ -369,6 +369,11 @@ func fnSetRange(ctx *cmdContext, args map[string]any) (output respValue, err err
 	offset := args["offset"].(int64)
 	value := args["value"].(string)
 
+	if offset < 0 {
+		output.data = respErrorString("ERR offset is out of range")
+		return
+	}
+
 	result := ctx.dsc.setRange(key, int(offset), value)
 	output.data = result.data
 	return
